@@ -50,6 +50,8 @@ Wr(e) == CASE e = "pa" -> <<"a", "\n">>            \* print('a')
            [] e = "ina" -> <<"p", "\n">>            \* ask('p') where the module did `ask = input` when it was RUN: inside a later
                                                     \* call() this is the input function of an EARLIER execution; what it
                                                     \* consumes still belongs to the execution that is running now
+           [] e = "rso" -> <<>>                     \* sys.stdout = io.StringIO(); sys.stdout.close(): the program replaces the
+                                                    \* stream itself and leaves its own, closed one behind
            [] e = "dm" -> <<>>                      \* the program deletes, adds and rebinds entries of sys.modules itself
            [] e = "st" -> <<>>                      \* sys.settrace(None): student code drops the trace function
            [] e = "cb" -> <<>>                      \* hook(): an instructor-supplied callable that calls back into the sandbox
